@@ -1258,6 +1258,55 @@ fn main() {
             println!("lost={}", lost);
             println!("first_lost={}", first);
         }
+        // log_reader_opened_early ... : on the disk-backed temporary file system (one cursor per handle): k of 5 records are appended, a
+        // reader is created, the remaining records are appended (by the same writer; in a second round by a reopened one), then the
+        // reader reads to the end: all 5 records, in order
+        "log_reader_opened_early" => {
+            let sizes = [10usize, 40000, 0, 700, 33000];
+            let (mut returned, mut expected, mut opened_after) = (vec![], vec![], vec![]);
+            for reopen in [false, true] {
+                for k in 0..=4usize {
+                    let afs: std::sync::Arc<dyn raindb::fs::FileSystem> = std::sync::Arc::new(raindb::fs::TmpFileSystem::new(None));
+                    let path = std::path::PathBuf::from(format!("early-{}-{}.log", reopen, k));
+                    let mut w = v::VLogWriter::new(std::sync::Arc::clone(&afs), &path, false).unwrap();
+                    for (i, sz) in sizes.iter().enumerate().take(k) {
+                        w.append(&vec![b'a' + i as u8; *sz]).unwrap();
+                    }
+                    let mut r = v::VLogReader::new(std::sync::Arc::clone(&afs), &path).unwrap();
+                    if reopen {
+                        drop(w);
+                        w = v::VLogWriter::new(std::sync::Arc::clone(&afs), &path, true).unwrap();
+                    }
+                    for (i, sz) in sizes.iter().enumerate().skip(k) {
+                        w.append(&vec![b'a' + i as u8; *sz]).unwrap();
+                    }
+                    let mut n = 0usize;
+                    loop {
+                        match r.read_record() {
+                            Ok((rec, eof)) => {
+                                if eof {
+                                    break;
+                                }
+                                if n < sizes.len() && rec.len() == sizes[n] {
+                                    n += 1;
+                                } else {
+                                    n = 99;
+                                    break;
+                                }
+                            }
+                            Err(_) => break,
+                        }
+                    }
+                    returned.push(n.to_string());
+                    expected.push(sizes.len().to_string());
+                    opened_after.push(k.to_string());
+                }
+            }
+            println!("appends={}", sizes.len());
+            println!("opened_after={}", opened_after.join(","));
+            println!("returned={}", returned.join(","));
+            println!("expected={}", expected.join(","));
+        }
         "sched_iter_during_flush" => {
             // an iterator is created while the flush writes its table file: the key lives only in the immutable memtable
             use raindb::{RainDbIterator, ReadOptions, WriteOptions};
